@@ -81,7 +81,7 @@ func (s *scenario) summary() {
 }
 
 func usage() {
-	fmt.Fprintln(os.Stderr, "usage: mpxscen <c06|c03|wake> <seed> <quick|thorough> [only=<run>] [skip=<digits>] [verbose]")
+	fmt.Fprintln(os.Stderr, "usage: mpxscen <c06|c03|wake|stall> <seed> <quick|thorough> [only=<run>] [skip=<digits>] [verbose]")
 	os.Exit(2)
 }
 
@@ -126,6 +126,9 @@ func main() {
 		runC03(s, seed)
 	case "wake":
 		runWake(s, seed)
+	case "stall":
+		stallRun(s, true)
+		stallRun(s, false)
 	default:
 		usage()
 	}
